@@ -539,6 +539,35 @@ Qed.
 (* ---------- NPV is homogeneous of degree one in the cash flow (any discount rate, 1 + r = 0 included) ---------- *)
 Theorem npv_scale r k : forall cf, npv r (map (Qmult k) cf) == k * npv r cf.
 Proof. induction cf as [|x cf IH]; simpl; [ring|]. rewrite IH. unfold Qdiv. ring. Qed.
+(* ---------- the payback period does not change when every cumulative cash flow is multiplied by k > 0 ---------- *)
+Lemma Qle_bool_scale_l k x : 0 < k -> Qle_bool (k * x) 0 = Qle_bool x 0.
+Proof.
+  intros Hk. destruct (Qle_bool (k * x) 0) eqn:E1, (Qle_bool x 0) eqn:E2; try reflexivity.
+  - apply Qle_bool_iff in E1. assert (~ x <= 0) by (intro H; apply Qle_bool_iff in H; congruence). nra.
+  - apply Qle_bool_iff in E2. assert (~ k * x <= 0) by (intro H; apply Qle_bool_iff in H; congruence). nra.
+Qed.
+Lemma payback_loop_scale k : 0 < k -> forall l p i acc,
+  payback_loop (k * p) i (map (Qmult k) l) acc == payback_loop p i l acc.
+Proof.
+  intros Hk. induction l as [|c l IH]; intros p i acc; cbn [map payback_loop]; [reflexivity|].
+  rewrite IH. apply payback_loop_ext; [apply F2eq_refl | reflexivity|].
+  unfold Qltb, Qleb. rewrite !Qle_bool_scale_l by assumption.
+  destruct (negb (Qle_bool c 0)) eqn:Ec; cbn [andb]; [|reflexivity].
+  destruct (Qle_bool p 0) eqn:Ep; [|reflexivity].
+  apply negb_true_iff in Ec. assert (Hc : 0 < c).
+  { destruct (Qlt_le_dec 0 c) as [H|H]; [assumption|]. apply Qle_bool_iff in H. congruence. }
+  rewrite Qabs_Qmult, (Qabs_pos k) by lra.
+  pose proof (Qabs_nonneg p) as Hp. field. nra.
+Qed.
+Theorem payback_scale k cum : 0 < k -> payback (map (Qmult k) cum) == payback cum.
+Proof.
+  intros Hk. unfold payback.
+  assert (Hl : last (map (Qmult k) cum) 0 == k * last cum 0).
+  { induction cum as [|x [|y cum] IH]; [simpl; ring | simpl; reflexivity |]. exact IH. }
+  rewrite <- (payback_loop_scale k Hk cum (last cum 0) 0%nat 0).
+  apply payback_loop_ext; [apply F2eq_refl | assumption | reflexivity].
+Qed.
+
 (* homogeneity of the code's own (vector) computation, through C01 *)
 Lemma teq_sym a b : teq a b -> teq b a.
 Proof. unfold teq. intros (H1 & H2 & H3). repeat split; symmetry; assumption. Qed.
